@@ -42,8 +42,18 @@ type c09Case struct {
 	Pins  string `json:"pins"`  // none match256 match512 match224 nomatch wronglen mixed
 }
 
+// c09Seq is a history on one long-lived object: a listener's TLS configuration serving several clients one after
+// the other, or one named client configuration looked up several times.
+type c09Seq struct {
+	Side  string   `json:"side"`  // server: one tls-server config, several client certificates; client: one tls-client config, several lookups and servers
+	Peers []string `json:"peers"` // pinned | unpinned | untrusted | wrongname, in order of appearance
+	Modes []string `json:"modes"` // client side: lookup mode of each step (receptor | dns)
+	Pins  bool     `json:"pins"`
+}
+
 type C09Plan struct {
 	Cases  []c09Case `json:"cases"`
+	Seqs   []c09Seq  `json:"seqs"`
 	Shrink []string  `json:"_shrink"`
 }
 
@@ -57,7 +67,7 @@ var (
 
 func genC09(seed uint64, tier string) any {
 	r := simnet.NewRng(seed, "c09")
-	p := &C09Plan{Shrink: []string{"cases"}}
+	p := &C09Plan{Shrink: []string{"cases", "seqs"}}
 	n := 40
 	if tier == "thorough" {
 		n = 120
@@ -99,6 +109,14 @@ func genC09(seed uint64, tier string) any {
 		p.Cases = append(p.Cases, c09Case{Layer: "mesh", Role: "client", Mode: "receptor", Auth: simnet.Pick(r, []string{"trusted", "trusted", "other"}),
 			Valid: simnet.Pick(r, []string{"valid", "valid", "expired"}), Usage: simnet.Pick(r, []string{"client", "both", "server"}),
 			Names: simnet.Pick(r, []string{"exp", "other", "multi", "none", "exp"}), Pins: simnet.Pick(r, []string{"none", "none", "match256", "nomatch"})})
+	}
+	for i := r.Range(1, 3); i > 0; i-- {
+		sq := c09Seq{Side: simnet.Pick(r, []string{"server", "client"}), Pins: r.Bool(0.7)}
+		for k := r.Range(2, 5); k > 0; k-- {
+			sq.Peers = append(sq.Peers, simnet.Pick(r, []string{"pinned", "pinned", "unpinned", "untrusted", "wrongname"}))
+			sq.Modes = append(sq.Modes, simnet.Pick(r, []string{"receptor", "receptor", "dns"}))
+		}
+		p.Seqs = append(p.Seqs, sq)
 	}
 	return p
 }
@@ -404,6 +422,103 @@ func runC09(t *testing.T, planAny any, res *simnet.Result) {
 					res.Violate("c09:bad-peer-accepted|"+c.Layer+"|"+strings.ReplaceAll(why, " ", "-"), "case %+v: the peer's certificate %s, yet the connection was established", c, why)
 				}
 				if len(res.Violations) > 4 {
+					break
+				}
+			}
+		}
+		// ---- histories on one long-lived configuration
+		for si, sq := range p.Seqs {
+			if len(res.Violations) > 4 {
+				break
+			}
+			serial := int64(900000 + si*100)
+			mk := func(kind, id, dns string, n int64) *c09Cert {
+				c := good
+				switch kind {
+				case "untrusted":
+					c.Auth = "other"
+				case "wrongname":
+					c.Names, c.DNS = "other", false
+				}
+				return c09Issue(c, trusted, other, id, dns, serial+n)
+			}
+			if sq.Side == "server" {
+				// one tls-server configuration of node-b; the clients come one after the other
+				pinned := mk("pinned", "node-a", "node-a.example", 1)
+				srvCert := c09Issue(good, trusted, other, "node-b", "node-b.example", serial)
+				scf, skf := write(fmt.Sprintf("seqsrv%d", si), srvCert)
+				cfg := netceptor.TLSServerConfig{Name: "s", Cert: scf, Key: skf, RequireClientCert: true, ClientCAs: caFile, SkipReceptorNamesCheck: true}
+				if sq.Pins {
+					cfg.PinnedClientCert = c09PinList("match256", pinned.der)
+				}
+				scfg, err := cfg.PrepareTLSServerConfig(nb.Net())
+				if err != nil {
+					res.Violate("harness", "seq server config: %v", err)
+					continue
+				}
+				pool := x509.NewCertPool()
+				pool.AddCert(trusted.cert)
+				for pi, kind := range sq.Peers {
+					cert := pinned
+					if kind != "pinned" {
+						cert = mk(kind, "node-a", "node-a.example", int64(2+pi))
+					}
+					want := kind == "pinned" || (!sq.Pins && kind != "untrusted") // (a client's names are not checked on this path)
+					pair, _ := tls.X509KeyPair(cert.certPEM, cert.keyPEM)
+					err := c09Handshake(w, scfg.Clone(), &tls.Config{Certificates: []tls.Certificate{pair}, RootCAs: pool, ServerName: "node-b.example", MinVersion: tls.VersionTLS12})
+					res.Add("seq_steps", 1)
+					if (err == nil) != want {
+						if want {
+							res.Violate("c09:good-peer-refused|seq-server", "history %v step %d (%s, pins=%v): refused: %v", sq.Peers, pi, kind, sq.Pins, err)
+						} else {
+							res.Violate("c09:bad-peer-accepted|seq-server|"+kind, "history %v (pins=%v): client %d (%s) was accepted by a listener configuration that had served other clients before", sq.Peers, sq.Pins, pi, kind)
+						}
+						break
+					}
+				}
+				continue
+			}
+			// one named tls-client configuration of node-a, looked up again for every connection
+			pinned := mk("pinned", "node-b", "node-b.example", 1)
+			ccfgIn := netceptor.TLSClientConfig{Name: "c", RootCAs: caFile, SkipReceptorNamesCheck: true}
+			if sq.Pins {
+				ccfgIn.PinnedServerCert = c09PinList("match256", pinned.der)
+			}
+			base, pins, err := ccfgIn.PrepareTLSClientConfig(na.Net())
+			if err != nil {
+				res.Violate("harness", "seq client config: %v", err)
+				continue
+			}
+			name := fmt.Sprintf("seq%d", si)
+			_ = na.Net().SetClientTLSConfig(name, base, pins)
+			for pi, kind := range sq.Peers {
+				mode := "receptor"
+				if pi < len(sq.Modes) {
+					mode = sq.Modes[pi]
+				}
+				ht, host := netceptor.ExpectedHostnameType(netceptor.ExpectedHostnameTypeReceptor), "node-b"
+				if mode == "dns" {
+					ht, host = netceptor.ExpectedHostnameTypeDNS, "node-b.example"
+				}
+				ccfg, err := na.Net().GetClientTLSConfig(name, host, ht)
+				if err != nil {
+					res.Violate("c09:good-peer-refused|seq-client", "lookup %d of %s: %v", pi, name, err)
+					break
+				}
+				cert := pinned
+				if kind != "pinned" {
+					cert = mk(kind, "node-b", "node-b.example", int64(2+pi))
+				}
+				want := kind == "pinned" || (!sq.Pins && kind == "unpinned")
+				pair, _ := tls.X509KeyPair(cert.certPEM, cert.keyPEM)
+				err = c09Handshake(w, &tls.Config{Certificates: []tls.Certificate{pair}, MinVersion: tls.VersionTLS12}, ccfg)
+				res.Add("seq_steps", 1)
+				if (err == nil) != want {
+					if want {
+						res.Violate("c09:good-peer-refused|seq-client", "history %v modes %v step %d (%s/%s, pins=%v): refused: %v", sq.Peers, sq.Modes, pi, kind, mode, sq.Pins, err)
+					} else {
+						res.Violate("c09:bad-peer-accepted|seq-client|"+kind, "history %v modes %v (pins=%v): at lookup %d (%s) a server whose certificate is %s was accepted", sq.Peers, sq.Modes, sq.Pins, pi, mode, kind)
+					}
 					break
 				}
 			}
